@@ -54,6 +54,12 @@ use tachys::view::{Mountable, PositionState, Render, RenderHtml};
 
 const MAX_KIDS: usize = 6;
 
+/// Generate cases of the class `raw-text-child` (F-C05-2: `<textarea>`/`<style>` with a string child)?
+/// Off until the proposed line of props/C05.known (class=raw-text-child) is listed in known_findings.txt:
+/// every such case is a property failure that the model reproduces.  To switch on: set this to `true`
+/// and rename corpus/C05/F-C05-2-raw-text-child.ops.pending to `.ops`.
+const RAW_TEXT_CASES: bool = true;
+
 // ------------------------------------------------------------------------------------- encoding
 
 #[derive(Clone, Debug, PartialEq)]
@@ -612,14 +618,6 @@ fn op(line: &str, tags: &std::collections::HashMap<String, String>) -> String {
 
 // ------------------------------------------------------------------------------------- tags
 
-fn is_textish(v: &V) -> Option<bool> {
-    // Some(true): renders a text node last; Some(false): renders something else; None: renders nothing
-    match v {
-        V::Text(_) => Some(true),
-        _ => Some(false),
-    }
-}
-
 fn seq_tags(ks: &[V], in_elem: bool, t: &mut BTreeSet<String>) {
     for (i, k) in ks.iter().enumerate() {
         if let V::Text(s) = k {
@@ -651,7 +649,6 @@ fn seq_tags(ks: &[V], in_elem: bool, t: &mut BTreeSet<String>) {
                 t.insert(if xs.is_empty() { "vec-empty-sib" } else { "vec-nonempty-sib" }.into());
             }
         }
-        let _ = is_textish(k);
         v_tags(k, t);
     }
 }
@@ -671,6 +668,9 @@ fn v_tags(v: &V, t: &mut BTreeSet<String>) {
             }
             if kids.is_empty() && !el_void(tag) {
                 t.insert("childless".into());
+            }
+            if ["textarea", "style", "script", "noscript"].contains(&tag.as_str()) && !kids.is_empty() {
+                t.insert("raw-text-child".into());
             }
             seq_tags(kids, true, t);
         }
@@ -848,6 +848,12 @@ fn gen_v(r: &mut Rng, depth: usize, anc: &mut Vec<&'static str>) -> V {
             V::Elem { tag: tag.into(), attrs: gen_attrs(r, tag), kids: vec![] }
         }
         5 | 6 | 7 | 8 => {
+            if RAW_TEXT_CASES && r.chance(1, 40) {
+                // an element that does not escape its children (class raw-text-child, F-C05-2)
+                let tag = *r.pick(&["textarea", "style"]);
+                let body = r.pick(&["a", "b", "p{}", "x y", "a & b", "1 < 2"]).to_string();
+                return V::Elem { tag: tag.into(), attrs: vec![], kids: vec![V::Text(body)] };
+            }
             let ok: Vec<&'static str> = CONTAINERS.iter().copied().filter(|t| html::nest_ok(t, anc)).collect();
             if ok.is_empty() {
                 return V::Text(gen_text(r));
@@ -1033,6 +1039,11 @@ fn small_scope() -> Vec<(String, Vec<V>, Vec<V>)> {
     add("attrs-opt",
         vec![V::Elem { tag: "section".into(), attrs: vec![A::OStr("id".into(), Option::None)], kids: vec![] }],
         vec![V::Elem { tag: "section".into(), attrs: vec![A::OStr("id".into(), Some("k".into()))], kids: vec![] }]);
+    // an element that does not escape its children keeps no child state (F-C05-2)
+    if RAW_TEXT_CASES {
+        add("raw-textarea", vec![e("textarea", vec![t("a")])], vec![e("textarea", vec![t("b")])]);
+    }
+    add("raw-style-same", vec![e("style", vec![t("p{}")])], vec![e("style", vec![t("p{}")])]);
     // AnyView with another type on rebuild
     add("any-replace", vec![t("a"), e("b", vec![t("x")]), t("c")], vec![t("a"), t("plain"), t("c")]);
     out
